@@ -64,8 +64,25 @@ static void oracle(int ref_alg)
 typedef struct { uint32_t seg[MAXSEG]; int nseg, next; uint64_t total, accepted; uint8_t *ctx; int inflight, done; int want; } job_t;
 
 /* segmentation of a stream of `total` bytes whose running total crosses `thr` at a chosen residue */
+static int mix_bigpos;
 static void plan(job_t *j, rng_t *r, uint64_t thr, int jidx, int block)
 {
+        if (thr == 0) {
+                /* mixed sizes: one job with a single submit of 2^31.. bytes among short ones (lane-length relations inside the manager) */
+                static const uint32_t hugev[] = { 0x80000000u, 0x80000040u, 0x8000003fu, 0xc0000000u };
+                j->next = 0; j->accepted = 0; j->inflight = 0; j->done = 0; j->nseg = 0;
+                if (jidx == mix_bigpos) {
+                        uint32_t h = hugev[rng_below(r, 4)];
+                        if (rng_below(r, 2)) j->seg[j->nseg++] = rng_below(r, 3 * (uint32_t) block);
+                        j->seg[j->nseg++] = h;
+                        if (rng_below(r, 2)) j->seg[j->nseg++] = rng_below(r, 200);
+                } else {
+                        int ns = 1 + (int) rng_below(r, 3);
+                        for (int i = 0; i < ns; i++) j->seg[j->nseg++] = rng_below(r, 4) == 0 ? rng_below(r, 100000) : rng_below(r, 4 * (uint32_t) block);
+                }
+                j->total = 0; for (int i = 0; i < j->nseg; i++) j->total += j->seg[i];
+                return;
+        }
         static const int64_t dthr[] = { 0, -1, 1, -64, 64, -63, 63, 7 };
         static const uint32_t huge[] = { 0xffffffffu, 0xffffffc0u, 0x80000000u, 0xfffffff7u };
         uint64_t resid = (uint64_t) rng_below(r, 3 * (uint32_t) block + 1);
@@ -96,15 +113,133 @@ static void plan(job_t *j, rng_t *r, uint64_t thr, int jidx, int block)
         j->total = total; j->next = 0; j->accepted = 0; j->inflight = 0; j->done = 0;
 }
 
+/* lane-relation probe: one job with a single submit of >= 2^31 bytes at lane position `bigpos`, the unique shortest job at
+ * `shortpos`, distinct medium jobs elsewhere; every (bigpos, shortpos) pair, through the submit path (manager filled) and the
+ * flush path (one lane left free). Whatever is handed back first must be complete with the right digest. The manager is then
+ * abandoned, so correct code never hashes the huge job and a trial costs microseconds. */
+static void lane_pairs(const halg_t *a, const hfam_t *f)
+{
+        int L = f->lanes > 32 ? 32 : f->lanes;
+        if (!strcmp(f->name, "base") || !strcmp(f->name, "sb_sse4")) return;   /* synchronous families hold nothing */
+        uint8_t *mgr = aligned_alloc(64, (a->mgr_size + 63) & ~(size_t) 63);
+        uint8_t *ctx[33];
+        for (int i = 0; i <= L; i++) ctx[i] = aligned_alloc(64, (a->ctx_size + 63) & ~(size_t) 63);
+        static const uint32_t hugev[] = { 0x80000000u, 0x80000040u, 0xc0000000u, 0xffffffc0u, 0xffffffffu, 0x8000003fu };
+        char rb[300], key[160];
+        /* how many jobs the manager takes before it starts working (sha-ni managers start at 2 although their layout has 4 lanes) */
+        {
+                int cap = 0;
+                f->init(mgr);
+                for (int i = 0; i <= L; i++) { a->ctx_init(ctx[i]); cap++; if (f->submit(mgr, ctx[i], stream + 4096 * (uint64_t) i, (uint32_t) a->block * (uint32_t) (8 + i), ISAL_HASH_ENTIRE)) break; }
+                while (f->flush(mgr)) ;
+                if (cap < L) L = cap;
+                out_max("lane_probe_capacity", (uint64_t) L);
+        }
+        int npairs = L * L, nrand = (int) arg_int("--nrand", 200);
+        static const uint32_t mags[] = { 1, 2, 3, 15, 16, 17, 255, 256, 257, 4095, 4096, 4097, 4100, 65535, 65536, 65537, 1u << 20, (1u << 24) + 1 };
+        for (int path = 0; path < 2; path++) for (int t = 0; t < npairs + nrand; t++) {
+                int n = path == 0 ? L : L - 1;
+                int bigpos = -1, shortpos = -1;
+                uint32_t len[33]; uint64_t off[33]; int small[33]; uint32_t hv = 0;
+                if (t < npairs) {
+                        /* one job of >= 2^31 bytes at bigpos, the unique shortest at shortpos, distinct medium ones elsewhere */
+                        bigpos = t / L; shortpos = t % L;
+                        if (bigpos == shortpos || bigpos >= n || shortpos >= n) continue;
+                        hv = hugev[(bigpos * 7 + shortpos) % 6];
+                        for (int i = 0; i < n; i++) { len[i] = i == bigpos ? hv : i == shortpos ? (uint32_t) a->block + (uint32_t) (shortpos % 3) : (uint32_t) a->block * (uint32_t) (4 + i) + (uint32_t) (i % 5); small[i] = i != bigpos; }
+                } else {
+                        /* block counts of very different magnitudes in every lane (each power-of-16 boundary of the packed length words);
+                         * one lane is always short so that correct code retires something after a few blocks */
+                        rng_t r; rng_seed(&r, mix64(g_seed ^ 0x3a95, mix64((uint64_t) (f - a->fam) * 2 + (uint64_t) path, (uint64_t) t)));
+                        for (int i = 0; i < n; i++) {
+                                uint64_t blocks = mags[rng_below(&r, sizeof mags / sizeof mags[0])];
+                                if (rng_below(&r, 6) == 0) blocks = (1ull << 25) / ((uint64_t) a->block / 64);      /* 2 GiB */
+                                uint64_t bytes = blocks * (uint64_t) a->block + (uint64_t) (i * 3 % a->block);
+                                if (bytes > 0xffffffffull) bytes = 0xffffffc0u;
+                                len[i] = (uint32_t) bytes; small[i] = blocks <= 4100;
+                        }
+                        int sp = (int) rng_below(&r, (uint32_t) n);
+                        len[sp] = (uint32_t) a->block * (1 + rng_below(&r, 3)) + (uint32_t) sp; small[sp] = 1;
+                }
+                int nsmall_target = 0;
+                for (int i = 0; i < n; i++) { off[i] = (uint64_t) i * 4096 + (uint64_t) (i % 7); nsmall_target += small[i]; }
+                snprintf(rb, sizeof rb, "{\"engine\":\"hashmb\",\"mode\":\"big\",\"thr\":\"pairs\",\"alg\":\"%s\",\"fam\":\"%s\",\"path\":\"%s\",\"trial\":%d,\"bigpos\":%d,\"shortpos\":%d}", a->name, f->name, path ? "flush" : "submit", t, bigpos, shortpos);
+                snprintf(cur_replay, sizeof cur_replay, "%s", rb);
+                f->init(mgr);
+                /* submit everything, then drain every job except the huge one; each hand-back is judged */
+                int returned[33] = { 0 }, nsmall = 0, bad = 0, i = 0, hugedone = 0;
+                out_count("lane_pair_trials", 1);
+                feat(mix64(0x9a125, mix64((uint64_t) (f - a->fam) * 2 + (uint64_t) path, (uint64_t) t)));
+                while (nsmall < nsmall_target && !bad) {
+                        uint8_t *ret;
+                        if (i < n) {
+                                a->ctx_init(ctx[i]);
+                                LABEL("%s %s lane-pairs %s big@%d short@%d submit %d len=%u", a->name, f->name, path ? "flush" : "submit", bigpos, shortpos, i, len[i]);
+                                ret = f->submit(mgr, ctx[i], stream + off[i], len[i], ISAL_HASH_ENTIRE);
+                                i++;
+                        } else {
+                                LABEL("%s %s lane-pairs flush big@%d short@%d returned=%d", a->name, f->name, bigpos, shortpos, nsmall);
+                                ret = f->flush(mgr);
+                                if (!ret) { snprintf(key, sizeof key, "lane-pairs-stranded %s %s", a->name, f->name); out_viol(g_prop, key, rb, "%s path: flush returned nothing while %d of %d short jobs are still held (trial %d, huge job at position %d, shortest at %d)", path ? "flush" : "submit", nsmall_target - nsmall, nsmall_target, t, bigpos, shortpos); bad = 1; }
+                        }
+                        cur_label[0] = 0;
+                        if (!ret) continue;
+                        int ri = -1; for (int k = 0; k < n; k++) if (ctx[k] == ret) ri = k;
+                        if (ri < 0 || returned[ri]) { snprintf(key, sizeof key, "lane-pairs-phantom %s %s", a->name, f->name); out_viol(g_prop, key, rb, "an unknown or already returned context was handed back"); bad = 1; break; }
+                        returned[ri] = 1;
+                        if (!small[ri]) {
+                                /* legal but never needed by correct code before the short jobs are out: verify it (one OpenSSL pass, only ever paid on a tree that does this) */
+                                hugedone = 1; out_count("lane_pair_huge_completed", 1);
+                                uint8_t got[64] = { 0 }, exp[64] = { 0 }; unsigned dl;
+                                halg_digest_bytes(a, ctx[ri], got);
+                                const EVP_MD *md = a->ref_alg == REF_SHA1 ? EVP_sha1() : a->ref_alg == REF_SHA256 ? EVP_sha256() : a->ref_alg == REF_SHA512 ? EVP_sha512() : a->ref_alg == REF_MD5 ? EVP_md5() : EVP_sm3();
+                                EVP_Digest(stream + off[ri], len[ri], exp, &dl, md, NULL);
+                                if (*(int32_t *) (ctx[ri] + a->off_status) != ISAL_HASH_CTX_STS_COMPLETE || memcmp(got, exp, (size_t) a->dbytes)) {
+                                        snprintf(key, sizeof key, "lane-pairs-digest %s %s", a->name, f->name);
+                                        out_viol(g_prop, key, rb, "%s path, trial %d: the %u-byte job at position %d was handed back %s with a wrong digest or status %d", path ? "flush" : "submit", t, len[ri], ri, nsmall < nsmall_target ? "before the short jobs" : "", *(int32_t *) (ctx[ri] + a->off_status));
+                                        bad = 1;
+                                }
+                                continue;
+                        }
+                        nsmall++;
+                        uint8_t got[64] = { 0 }, exp[64] = { 0 };
+                        halg_digest_bytes(a, ctx[ri], got);
+                        if (len[ri] <= 4096) ref_hash(a->ref_alg, stream + off[ri], len[ri], exp);
+                        else { unsigned dl; EVP_Digest(stream + off[ri], len[ri], exp, &dl, a->ref_alg == REF_SHA1 ? EVP_sha1() : a->ref_alg == REF_SHA256 ? EVP_sha256() : a->ref_alg == REF_SHA512 ? EVP_sha512() : a->ref_alg == REF_MD5 ? EVP_md5() : EVP_sm3(), NULL); }
+                        if (*(int32_t *) (ctx[ri] + a->off_status) != ISAL_HASH_CTX_STS_COMPLETE || memcmp(got, exp, (size_t) a->dbytes)) {
+                                char g[129], e[129]; hex(g, got, (size_t) a->dbytes); hex(e, exp, (size_t) a->dbytes);
+                                snprintf(key, sizeof key, "lane-pairs-digest %s %s", a->name, f->name);
+                                out_viol(g_prop, key, rb, "%s path, trial %d (huge job at position %d, shortest at %d): job %d (%u bytes) handed back with status %d digest %s expected %s%s", path ? "flush" : "submit", t, bigpos, shortpos, ri, len[ri], *(int32_t *) (ctx[ri] + a->off_status), g, e, hugedone ? " (after a huge job)" : "");
+                                bad = 1;
+                        }
+                }
+                if (bad) goto done_family;      /* one witness per family is enough (a broken manager can be slow) */
+        }
+done_family:
+        for (int i = 0; i <= L; i++) free(ctx[i]);
+        free(mgr);
+}
+
 int hashmb_big(int argc, char **argv)
 {
         (void) argc; (void) argv;
         const halg_t *a = halg_by_name(arg_str("--alg", "sha256"));
         if (!a) out_err("--alg required");
         const char *fams = arg_str("--fam", "all");
+        if (strstr(arg_str("--thr", "29"), "pairs")) {
+                map_stream();
+                for (int fi = 0; fi < a->nfam; fi++) {
+                        if (strcmp(fams, "all")) { char t[128], w[32]; snprintf(t, sizeof t, ",%s,", fams); snprintf(w, sizeof w, ",%s,", a->fam[fi].name); if (!strstr(t, w)) continue; }
+                        lane_pairs(a, &a->fam[fi]);
+                }
+                out_sample("{\"engine\":\"hashmb big\",\"mode\":\"lane pairs\",\"alg\":\"%s\",\"families\":\"%s\"}", a->name, fams);
+                out_finish();
+                return viol_count() ? 1 : 0;
+        }
         int rounds = (int) arg_int("--rounds", 1);
         uint64_t thr[3]; int nthr = 0;
         const char *ts = arg_str("--thr", "29");
+        if (strstr(ts, "mix")) thr[nthr++] = 0;
         if (strstr(ts, "29")) thr[nthr++] = 1ull << 29;
         if (strstr(ts, "32")) thr[nthr++] = 1ull << 32;
         if (strstr(ts, "33")) thr[nthr++] = (1ull << 32) + (1ull << 29);
@@ -120,6 +255,7 @@ int hashmb_big(int argc, char **argv)
                 if (strcmp(fams, "all")) { char t[128], w[32]; snprintf(t, sizeof t, ",%s,", fams); snprintf(w, sizeof w, ",%s,", f->name); if (!strstr(t, w)) { njobs[fi] = 0; continue; } }
                 for (int ti = 0; ti < nthr; ti++) for (int rd = 0; rd < rounds; rd++) for (int k = 0; k < njobs[fi]; k++) {
                         rng_t r; rng_seed(&r, mix64(g_seed ^ 0xb16, (uint64_t) (((fi * 4 + ti) * 8 + rd) * 64 + k)));
+                        mix_bigpos = (int) (mix64(g_seed, (uint64_t) (fi * 16 + rd)) % (uint64_t) njobs[fi]);
                         plan(&jobs[fi][ti][rd][k], &r, thr[ti], k + rd * 7, a->block);
                         want_idx(jobs[fi][ti][rd][k].total);
                 }
@@ -162,34 +298,34 @@ int hashmb_big(int argc, char **argv)
                                                 LABEL("%s %s big flush", a->name, f->name);
                                                 ret = f->flush(mgr);
                                                 cur_label[0] = 0;
-                                                if (!ret) { out_viol("C15", "big-stranded", rb, "%s %s: flush returned nothing while %d job(s) are unfinished", a->name, f->name, remaining); bad = 1; break; }
+                                                if (!ret) { out_viol(g_prop, "big-stranded", rb, "%s %s: flush returned nothing while %d job(s) are unfinished", a->name, f->name, remaining); bad = 1; break; }
                                         }
                                         while (ret) {
                                                 int ri = -1;
                                                 for (int q = 0; q < n; q++) if (J[q].ctx == ret) ri = q;
-                                                if (ri < 0 || !J[ri].inflight) { out_viol("C15", "big-phantom", rb, "%s %s: unexpected context handed back", a->name, f->name); bad = 1; break; }
+                                                if (ri < 0 || !J[ri].inflight) { out_viol(g_prop, "big-phantom", rb, "%s %s: unexpected context handed back", a->name, f->name); bad = 1; break; }
                                                 job_t *j = &J[ri];
                                                 j->inflight = 0;
                                                 uint64_t tl = *(uint64_t *) (j->ctx + a->off_total);
                                                 char key[160];
                                                 if (tl != j->accepted) {
                                                         snprintf(key, sizeof key, "total-length %s %s", a->name, f->name);
-                                                        out_viol("C15", key, rb, "context reports total_length %llu after segments summing to %llu (threshold 2^%s)", (unsigned long long) tl, (unsigned long long) j->accepted, thr[ti] == (1ull << 29) ? "29" : thr[ti] == (1ull << 32) ? "32" : "32+2^29");
+                                                        out_viol(g_prop, key, rb, "context reports total_length %llu after segments summing to %llu (threshold 2^%s)", (unsigned long long) tl, (unsigned long long) j->accepted, thr[ti] == 0 ? "mixed" : thr[ti] == (1ull << 29) ? "29" : thr[ti] == (1ull << 32) ? "32" : "32+2^29");
                                                 }
                                                 out_count("big_handbacks", 1);
                                                 if (j->next == j->nseg) {
                                                         j->done = 1; remaining--;
                                                         uint8_t got[64] = { 0 };
                                                         halg_digest_bytes(a, j->ctx, got);
-                                                        if (*(int32_t *) (j->ctx + a->off_status) != ISAL_HASH_CTX_STS_COMPLETE) { snprintf(key, sizeof key, "big-not-complete %s %s", a->name, f->name); out_viol("C15", key, rb, "job not complete after LAST"); }
+                                                        if (*(int32_t *) (j->ctx + a->off_status) != ISAL_HASH_CTX_STS_COMPLETE) { snprintf(key, sizeof key, "big-not-complete %s %s", a->name, f->name); out_viol(g_prop, key, rb, "job not complete after LAST"); }
                                                         if (j->want < 0 || memcmp(got, wants[j->want].digest, (size_t) a->dbytes)) {
                                                                 char g[129], e[129]; hex(g, got, (size_t) a->dbytes); hex(e, wants[j->want].digest, (size_t) a->dbytes);
                                                                 char segs[300]; size_t so = 0; for (int q = 0; q < j->nseg && so + 12 < sizeof segs; q++) so += (size_t) snprintf(segs + so, sizeof segs - so, "%u,", j->seg[q]);
-                                                                snprintf(key, sizeof key, "big-digest %s %s thr=%s", a->name, f->name, thr[ti] == (1ull << 29) ? "2^29" : thr[ti] == (1ull << 32) ? "2^32" : "2^32+2^29");
-                                                                out_viol("C15", key, rb, "total %llu bytes, segments %s digest %s expected %s", (unsigned long long) j->total, segs, g, e);
+                                                                snprintf(key, sizeof key, "big-digest %s %s thr=%s", a->name, f->name, thr[ti] == 0 ? "mixed-sizes" : thr[ti] == (1ull << 29) ? "2^29" : thr[ti] == (1ull << 32) ? "2^32" : "2^32+2^29");
+                                                                out_viol(g_prop, key, rb, "total %llu bytes, segments %s digest %s expected %s", (unsigned long long) j->total, segs, g, e);
                                                         }
                                                         out_count("big_jobs_completed", 1);
-                                                        char cn[64]; snprintf(cn, sizeof cn, "big_jobs_%s", thr[ti] == (1ull << 29) ? "2^29" : thr[ti] == (1ull << 32) ? "2^32" : "2^32+2^29"); out_count(cn, 1);
+                                                        char cn[64]; snprintf(cn, sizeof cn, "big_jobs_%s", thr[ti] == 0 ? "mixed-sizes" : thr[ti] == (1ull << 29) ? "2^29" : thr[ti] == (1ull << 32) ? "2^32" : "2^32+2^29"); out_count(cn, 1);
                                                 }
                                                 ret = NULL;
                                         }
